@@ -288,7 +288,9 @@ impl Builder {
     /// Create a [crate::insim::Isi] from this configuration.
     pub fn isi(&self) -> Isi {
         let udpport = match self.proto {
-            Proto::Udp => self.udp_local_address.unwrap().port(),
+            // without a local address we bind to a random port, and LFS replies to wherever the
+            // packet came from
+            Proto::Udp => self.udp_local_address.map_or(0, |addr| addr.port()),
             _ => 0,
         };
 
